@@ -383,9 +383,7 @@ def main():
         batch.trace(f"run/big/{hi}/RS", ev, cfg)
         stats["events"] += len(ev)
     # a fitness function that fails in the middle of a batch: whatever was evaluated before the fault is known to the tracker
-    for hi, h in enumerate(hs1[: (10 if quick else 60)]):
-        if len(h) < 3:
-            continue
+    for hi, h in enumerate([h for h in H1 if len(h) >= 3][: (12 if quick else 80)]):
         for shape in ("one", "parts"):
             fa = (R.randint(1, len(h) - 1),)
             ev, cfg = direct_session(R, h, [bool(hi % 2)], False, shape, "tree", fail_at=fa)
